@@ -36,6 +36,8 @@ struct trap
     static std::jmp_buf& buf() { static std::jmp_buf b; return b; }
     static bool& armed() { static bool a = false; return a; }
     static std::string& message() { static std::string m; return m; }
+    // set by the MPI shim: called instead of longjmp when the failing code runs on a coroutine stack
+    static void (*&escape())() { static void (*f)() = nullptr; return f; }
 };
 
 // ---- conditions --------------------------------------------------------------------------------
@@ -636,6 +638,7 @@ __attribute__((noreturn)) void __glibcxx_assert_fail(const char* file, int line,
     {
         sym::trap::message() = std::string(file ? file : "?") + ":" + std::to_string(line) + ": " +
             (condition ? condition : "?") + " in " + (function ? std::string(function).substr(0, 120) : "?");
+        if (sym::trap::escape()) sym::trap::escape()();
         std::longjmp(sym::trap::buf(), 1);
     }
     std::fprintf(stderr, "assertion failed outside path: %s:%d %s\n", file, line, condition);
@@ -651,6 +654,7 @@ extern "C" __attribute__((noreturn)) void __assert_fail(const char* assertion, c
     {
         sym::trap::message() = std::string(file ? file : "?") + ":" + std::to_string(line) + ": assert(" +
             (assertion ? assertion : "?") + ") in " + (function ? std::string(function).substr(0, 120) : "?");
+        if (sym::trap::escape()) sym::trap::escape()();
         std::longjmp(sym::trap::buf(), 1);
     }
     std::fprintf(stderr, "assertion failed outside path: %s:%u %s\n", file, line, assertion);
@@ -661,8 +665,11 @@ extern "C" __attribute__((noreturn)) void __assert_fail(const char* assertion, c
     int main(int argc, char** argv)                                                               \
     {                                                                                             \
         sym::options opt = sym::parse_args(argc, argv);                                           \
-        return sym::run_harness(NAME, opt, [](sym::H<sym::real>& h) { BODY<sym::real>(h); },      \
+        int const rc = sym::run_harness(NAME, opt, [](sym::H<sym::real>& h) { BODY<sym::real>(h); },      \
             [](sym::H<SYM_NATIVE>& h) { BODY<SYM_NATIVE>(h); });                                          \
+        std::fflush(nullptr);                                                                     \
+        std::cout.flush();                                                                        \
+        std::_Exit(rc); /* abandoned paths leak objects on purpose: skip static destruction */     \
     }
 
 #endif
